@@ -1,5 +1,7 @@
 """Obligation name (regex) -> replay driver script (run natively on /repo with /venv/bin/python)."""
 DRIVERS = [
+    (r"(variable_processor\.py|variable_set_processor\.py):.*/SIG/", "c06_total_collection.py"),
+    (r"breadth_first_search/POST/loop#1/body", "c05_breadth_first.py"),
     (r"(TriggerHandler\.trace_call|TriggerHandler\.__process_call_backs|FunctionLocation\.at_location|TriggerHandler\.__actions_for_location)/(SIG|POST/store-invariant|POST/tracing)", "c01_trace_call_escapes.py"),
     (r"thread_local\.py:ThreadLocal\.", "c15_threadlocal.py"),
     (r"TriggerContext\.evaluate_expression/PRE/call:eval/", "c10_eval_scope.py"),
